@@ -10,6 +10,11 @@ case kinds
        of every element of the trained parameter), "bound": spec|None}
   "stdp": STDP / StableSTDP / TripletSTDP / StableTripletSTDP / MSTDP / MSTDPET (case format of c08_impl) + "w0", "bound".
   "cell": the delay-adjusted / kernel trainers: delegated unchanged to c18_impl.run_cell.
+  "group": {"family": "homeo"|"stdp", "defaults": constructor-level hyperparameters of ONE trainer object, "cells": [cell
+      cases as above holding their EFFECTIVE hyperparameters + "override_keys": the hyperparameters handed to
+      register_cell(name, cell, **kwargs)]}.  homeo cells: "target_reg" (value of the `target` override, may be None),
+      "fwd_targets": [T] explicit forward(target) per step (None allowed; common to the group, taken from cells[0]);
+      defaults: "target_ctor".  stdp cells share B, T, signal and scale.
 
 bound spec: {"form": "half", "upper": {"fn": "multiplicative"|"sharp"|"scaled_multiplicative", "lim": x, "kw": {...}}|None,
              "lower": {...}|None}  |  {"form": "full", "fn": "multiplicative"|"sharp", "max": x|None, "min": y|None}
@@ -89,99 +94,199 @@ def build_conn(case, bias):
                          dilation=tuple(cv.get("dilation", [1, 1])), synapse=syn, delay=delay, bias=bias, batch_size=B)
 
 
+TRIPLET = ("TripletSTDP", "StableTripletSTDP")
+TRIPLET_KEYS = {"lr_post": "lr_post_pair", "lr_pre": "lr_pre_pair", "tc_post": "tc_post_fast", "tc_pre": "tc_pre_fast"}
+
+
+def target_value(tg, conn):
+    if isinstance(tg, list):
+        return torch.tensor(tg, dtype=torch.float64).reshape(1, *conn.outshape)
+    return tg
+
+
+# ------------------------------------------------------------------ LinearHomeostasis
+def homeo_override_kwargs(cell, conn):
+    """register_cell(name, cell, **kwargs): the cell's effective hyperparameters restricted to the overridden keys"""
+    kw = {}
+    for k in cell.get("override_keys", []):
+        if k == "plasticity":
+            kw["plasticity"] = cell["plasticity"]
+        elif k == "param":
+            kw["param"] = cell["param"]
+        elif k == "reduction":
+            kw["batch_reduction"] = RED[cell["reduction"]]
+        elif k == "target":
+            kw["target"] = target_value(cell["target_reg"], conn)      # may be None (explicitly no default)
+        else:
+            raise ValueError(k)
+    return kw
+
+
+def run_homeo_group(defaults, cells):
+    """ONE LinearHomeostasis object (constructor arguments `defaults`: plasticity, target_ctor, param, reduction) driving
+    every cell; each cell is registered with its own keyword overrides.  All layers are stepped, then
+    trainer(target) is called once per step with the step's explicit target (cells[0]["fwd_targets"][t], None allowed)."""
+    tr = LinearHomeostasis(defaults["plasticity"], defaults.get("target_ctor"), defaults["param"],
+                           batch_reduction=RED[defaults.get("reduction")])
+    KEEP.append(tr)
+    built = []
+    for j, case in enumerate(cells):
+        B, dt, param = case["B"], case["dt"], case["param"]
+        conn = build_conn(case, True)
+        neuron = c08_impl.ScriptedNeuron(tuple(conn.outshape), dt, batch_size=B)
+        layer = neural.Serial(conn, neuron)
+        conn.updater = conn.defaultupdater()
+        with torch.no_grad():
+            setattr(conn, param, torch.full_like(getattr(conn, param), float(case["x0"])))
+        tr.register_cell(f"c{j}", layer.cell, **homeo_override_kwargs(case, conn))
+        KEEP.append(layer)
+        layer.train()
+        acc = getattr(conn.updater, param)
+        set_bounds(acc, case.get("bound"))
+        neuron.script = [torch.tensor(p, dtype=torch.bool) for p in case["post"]]
+        built.append((conn, neuron, layer, acc, Tap(acc)))
+    tr.train()
+    T = len(cells[0]["post"])
+    outs = [{"ok": True, "steps": []} for _ in cells]
+    fwd = cells[0].get("fwd_targets") or [None] * T
+    for t in range(T):
+        for case, (conn, neuron, layer, acc, tap) in zip(cells, built):
+            layer(torch.zeros(case["B"], *conn.inshape, dtype=torch.bool))
+        ft = fwd[t]
+        if isinstance(ft, list):
+            ft = torch.tensor(ft, dtype=torch.float64).reshape(1, *built[0][0].outshape)
+        tr(ft)
+        for j, (case, (conn, neuron, layer, acc, tap)) in enumerate(zip(cells, built)):
+            pv = getattr(conn, case["param"])
+            newp, newn = tap.new(pv)
+            outs[j]["steps"].append({"rate": flat(tr.get_unit(f"c{j}").monitors["spike_rate"].peek()),
+                                     "pos": newp, "neg": newn, "apos": flat_like(acc.pos, pv), "aneg": flat_like(acc.neg, pv)})
+    for j, (case, (conn, neuron, layer, acc, tap)) in enumerate(zip(cells, built)):
+        before = getattr(conn, case["param"]).detach().clone()
+        conn.update()
+        after = getattr(conn, case["param"]).detach().clone()
+        outs[j].update({"before": flat(before), "after": flat(after), "pshape": list(before.shape),
+                        "cleared": acc.pos is None and acc.neg is None})
+    return outs
+
+
 def run_homeo(case):
-    B, dt, param = case["B"], case["dt"], case["param"]
-    conn = build_conn(case, True)
+    """a single cell: the trainer is constructed with the cell's own hyperparameters; "target_at" says where a single
+    target is given ("init" | "register" | "forward")"""
+    tg, at = case["target"], case["target_at"]
+    defaults = {"plasticity": case["plasticity"], "param": case["param"], "reduction": case.get("reduction"),
+                "target_ctor": tg if (at == "init" and not isinstance(tg, list)) else None}
+    cell = dict(case, override_keys=[])
+    if at == "register" or (at == "init" and isinstance(tg, list)):
+        cell["override_keys"] = ["target"]
+        cell["target_reg"] = tg
+    cell["fwd_targets"] = [tg if at == "forward" else None] * len(case["post"])
+    return run_homeo_group(defaults, [cell])[0]
+
+
+# ------------------------------------------------------------------ STDP family
+def stdp_override_kwargs(cell):
+    hp, tri = cell["hp"], cell["trainer"] in TRIPLET
+    kw = {}
+    for k in cell.get("override_keys", []):
+        if k == "mode":
+            kw["trace_mode"] = cell["mode"]
+        elif k == "reduction":
+            kw["batch_reduction"] = RED[cell["reduction"]]
+        elif k == "delayed":
+            kw["delayed"] = cell["delayed"]
+        elif k == "tc_elig":
+            kw["tc_eligibility"] = hp["tc_elig"]
+        elif k in hp:
+            kw[TRIPLET_KEYS.get(k, k) if tri else k] = hp[k]
+        else:
+            raise ValueError(k)
+    return kw
+
+
+def build_stdp_layer(case):
+    dt, B, kmax = case["dt"], case["B"], case.get("kmax")
+    conn = build_conn(case, False)
+    with torch.no_grad():
+        conn.weight = torch.full_like(conn.weight, float(case.get("w0", 0.5)))
+        if kmax is not None:
+            conn.delay = (torch.tensor(case["delays"], dtype=torch.float64) * dt).reshape(conn.delay.shape)
     neuron = c08_impl.ScriptedNeuron(tuple(conn.outshape), dt, batch_size=B)
     layer = neural.Serial(conn, neuron)
     conn.updater = conn.defaultupdater()
-    with torch.no_grad():
-        setattr(conn, param, torch.full_like(getattr(conn, param), float(case["x0"])))
-    tg = case["target"]
-    if isinstance(tg, list):
-        tg = torch.tensor(tg, dtype=torch.float64).reshape(1, *conn.outshape)
-    at = case["target_at"]
-    red = RED[case.get("reduction")]
-    tr = LinearHomeostasis(case["plasticity"], tg if (at == "init" and not isinstance(tg, torch.Tensor)) else None,
-                           param, batch_reduction=red)
-    kw = {}
-    if at == "register" or (at == "init" and isinstance(tg, torch.Tensor)):
-        kw["target"] = tg
-    tr.register_cell("c", layer.cell, **kw)
-    KEEP.extend([layer, tr])
-    layer.train()
-    tr.train()
-    acc = getattr(conn.updater, param)
-    set_bounds(acc, case.get("bound"))
-    tap = Tap(acc)
-    neuron.script = [torch.tensor(p, dtype=torch.bool) for p in case["post"]]
-    steps = []
-    for t in range(len(case["post"])):
-        layer(torch.zeros(B, *conn.inshape, dtype=torch.bool))
-        if at == "forward":
-            tr(tg)
-        else:
-            tr()
-        pv = getattr(conn, param)
-        newp, newn = tap.new(pv)
-        steps.append({"rate": flat(tr.get_unit("c").monitors["spike_rate"].peek()),
-                      "pos": newp, "neg": newn, "apos": flat_like(acc.pos, pv), "aneg": flat_like(acc.neg, pv)})
-    before = getattr(conn, param).detach().clone()
-    conn.update()
-    after = getattr(conn, param).detach().clone()
-    return {"ok": True, "steps": steps, "before": flat(before), "after": flat(after), "pshape": list(before.shape),
-            "cleared": acc.pos is None and acc.neg is None}
+    KEEP.append(layer)
+    return layer, conn, neuron
 
 
-def run_stdp(case):
-    layer, conn, neuron, trainer = c08_impl.build(case)
-    KEEP.extend([layer, trainer])
-    with torch.no_grad():
-        conn.weight = torch.full_like(conn.weight, float(case.get("w0", 0.5)))
-    layer.train()
+def run_stdp_group(defaults, cells):
+    """ONE trainer object built from `defaults` (trainer, mode, hp, delayed, reduction) driving every cell, each registered
+    with its own keyword overrides; all layers are stepped, then trainer(...) is called once per step (three-factor: with
+    the step's signal and scale, common to the group)"""
+    trainer = c08_impl.mk_trainer(defaults)
+    KEEP.append(trainer)
+    built = []
+    for j, case in enumerate(cells):
+        layer, conn, neuron = build_stdp_layer(case)
+        trainer.register_cell(f"c{j}", layer.cell, **stdp_override_kwargs(case))
+        layer.train()
+        acc = conn.updater.weight
+        set_bounds(acc, case.get("bound"))
+        neuron.script = [torch.tensor(p, dtype=torch.bool) for p in case["post"]]
+        built.append((layer, conn, neuron, acc, Tap(acc)))
     trainer.train()
-    acc = conn.updater.weight
-    set_bounds(acc, case.get("bound"))
-    tap = Tap(acc)
-    T, B = len(case["pre"]), case["B"]
-    neuron.script = [torch.tensor(p, dtype=torch.bool) for p in case["post"]]
-    sig = case.get("signal")
-    steps, synpre = [], []
+    T = len(cells[0]["pre"])
+    sig = cells[0].get("signal")
+    outs = [{"ok": True, "steps": [], "synpre": []} for _ in cells]
     for t in range(T):
-        x = torch.tensor(case["pre"][t], dtype=torch.bool).reshape(B, *conn.inshape)
-        if case["conn"] == "conv":
-            synpre.append(conn.like_synaptic(x).to(torch.int64).tolist())
-        layer(x)
+        for j, (case, (layer, conn, neuron, acc, tap)) in enumerate(zip(cells, built)):
+            x = torch.tensor(case["pre"][t], dtype=torch.bool).reshape(case["B"], *conn.inshape)
+            if case["conn"] == "conv":
+                outs[j]["synpre"].append(conn.like_synaptic(x).to(torch.int64).tolist())
+            layer(x)
         if sig is None:
             trainer()
         else:
             s = sig[t]
             s = torch.tensor(s, dtype=torch.float64) if isinstance(s, list) else float(s)
-            trainer(s, case.get("scale", 1.0))
-        newp, newn = tap.new(conn.weight)
-        steps.append({"pos": newp, "neg": newn, "apos": flat_like(acc.pos, conn.weight),
-                      "aneg": flat_like(acc.neg, conn.weight)})
-    before = conn.weight.detach().clone()
-    conn.update()
-    after = conn.weight.detach().clone()
-    return {"ok": True, "steps": steps, "before": flat(before), "after": flat(after), "pshape": list(before.shape),
-            "synpre": synpre, "cleared": acc.pos is None and acc.neg is None}
+            trainer(s, cells[0].get("scale", 1.0))
+        for j, (case, (layer, conn, neuron, acc, tap)) in enumerate(zip(cells, built)):
+            newp, newn = tap.new(conn.weight)
+            outs[j]["steps"].append({"pos": newp, "neg": newn, "apos": flat_like(acc.pos, conn.weight),
+                                     "aneg": flat_like(acc.neg, conn.weight)})
+    for j, (case, (layer, conn, neuron, acc, tap)) in enumerate(zip(cells, built)):
+        before = conn.weight.detach().clone()
+        conn.update()
+        after = conn.weight.detach().clone()
+        outs[j].update({"before": flat(before), "after": flat(after), "pshape": list(before.shape),
+                        "cleared": acc.pos is None and acc.neg is None})
+    return outs
+
+
+def run_stdp(case):
+    return run_stdp_group(case, [dict(case, override_keys=[])])[0]
+
+
+def err_record(e):
+    import traceback
+    return {"ok": False, "err": exc_code(e), "msg": f"{type(e).__name__}: {e}"[:400], "trace": traceback.format_exc()[-1500:]}
 
 
 def handler(payload):
     out = []
     for c in payload["cases"]:
         try:
-            if c["kind"] == "homeo":
+            if c["kind"] == "group":
+                fn = run_homeo_group if c["family"] == "homeo" else run_stdp_group
+                out.append(fn(c["defaults"], c["cells"]))
+            elif c["kind"] == "homeo":
                 out.append(run_homeo(c))
             elif c["kind"] == "stdp":
                 out.append(run_stdp(c))
             else:
                 out.append({"ok": True, "cell": c18_impl.run_cell(c)})
         except Exception as e:  # noqa: BLE001
-            import traceback
-            out.append({"ok": False, "err": exc_code(e), "msg": f"{type(e).__name__}: {e}"[:400],
-                        "trace": traceback.format_exc()[-1500:]})
+            r = err_record(e)
+            out.append([dict(r) for _ in c["cells"]] if c["kind"] == "group" else r)
     return out
 
 
